@@ -350,17 +350,19 @@ def _descent_guard(vch, loops):
     Returns None when all of them are descended into, else (missing class names, guard text)."""
     need = [c for c in vars(ast).values() if isinstance(c, type) and issubclass(c, (ast.stmt, ast.excepthandler, ast.match_case)) and c not in (ast.stmt, ast.excepthandler)]
 
-    def classes(e):
+    def classes(e, depth=0):
         if isinstance(e, ast.Tuple):
             out = []
             for x in e.elts:
-                c = classes(x)
+                c = classes(x, depth)
                 if c is None:
                     return None
                 out += c
             return out
         nm = e.attr if isinstance(e, ast.Attribute) else e.id if isinstance(e, ast.Name) else None
         c = getattr(ast, nm, None) if nm else None
+        if not isinstance(c, type) and isinstance(e, ast.Name) and depth < 4 and e.id in vch.module.assigns:
+            return classes(vch.module.assigns[e.id], depth + 1)     # a hoisted class tuple (_BLOCK_HOLDERS = (ast.stmt, ...))
         return [c] if isinstance(c, type) else None
 
     def ev(t, cls):
